@@ -188,17 +188,25 @@ def matchRule : (fuel : Nat) → Rule → Tree → Env → Except Abn (Option Tr
         let named := parent.children.filter (·.named)
         match (match ofRule with
                | some rule => filterMapRule fuel rule named env
-               | none => .ok (named, env)) with
+               | none => .ok named) with
         | .error e => .error e
-        | .ok (kids, env1) =>
+        | .ok kids =>
           let kids := if reverse then kids.reverse else kids
           match indexById n kids with
-          | none => .ok (none, env1)
+          | none => .ok (none, env)
           | some index =>
             match isMatchedI32 stepSize offset index with
             | none => .error .panic                               -- i32 overflow (debug build)
-            | some true => .ok (some n, env1)
-            | some false => .ok (none, env1)
+            | some false => .ok (none, env)
+            | some true =>
+              -- expose the bindings `ofRule` makes for the matched node itself
+              match ofRule with
+              | none => .ok (some n, env)
+              | some rule =>
+                match matchRule fuel rule n env with
+                | .error e => .error e
+                | .ok (some _, env') => .ok (some n, env')
+                | .ok (none, env') => .ok (none, env')
     | .all rs kinds =>
       if !(kindsGate kinds n) then .ok (none, env)
       else
@@ -260,17 +268,18 @@ def anyLoop : (fuel : Nat) → List Rule → Tree → Env → Except Abn (Option
     | .ok (some _, env') => .ok (some env')
     | .ok (none, _) => anyLoop fuel rs n env
 
-/-- `children.filter_map(|child| rule.match_node_with_env(child, env))` of `NthChild::find_index` -/
-def filterMapRule : (fuel : Nat) → Rule → List Tree → Env → Except Abn (List Tree × Env)
+/-- `children.filter_map(|child| rule.match_node_with_env(child, &mut scratch))` of
+`NthChild::find_index`: every sibling is tested on a scratch copy of the caller's env -/
+def filterMapRule : (fuel : Nat) → Rule → List Tree → Env → Except Abn (List Tree)
   | 0, _, _, _ => .error .fuel
-  | _ + 1, _, [], env => .ok ([], env)
+  | _ + 1, _, [], _ => .ok []
   | fuel + 1, r, c :: cs, env =>
     match matchRule fuel r c env with
     | .error e => .error e
-    | .ok (m, env') =>
-      match filterMapRule fuel r cs env' with
+    | .ok (m, _) =>
+      match filterMapRule fuel r cs env with
       | .error e => .error e
-      | .ok (rest, env'') => .ok ((match m with | some x => x :: rest | none => rest), env'')
+      | .ok rest => .ok (match m with | some x => x :: rest | none => rest)
 
 /-- `iter.find_map(finder)` where `finder` = the rule, optionally preceded by the `field` test of
 `Inside` (`expectId` = id of the node the walk came from; updated at every step) -/
